@@ -103,9 +103,18 @@ class Executor:
 
     # ------------------------------------------------------------------ solving helpers
     def axioms(self, heaps=()):
+        # the axiom set depends only on the symbols registered so far: rebuilt when a new one appears
+        key = (len(smt._str_consts), len(smt._sentinels), len(smt._attr_funcs), len(smt._meth_funcs), len(smt._inst_preds), len(REG.classes),
+               len(self.extra_axioms), None if self.heap0 is None else id(self.heap0), len(self.model.used))
+        cached = getattr(self, "_ax_cache", None)
+        if cached is not None and cached[0] == key:
+            return list(cached[1])
         ax = smt.base_axioms() + REG.axioms() + self.model.axioms(self) + list(self.extra_axioms)
         if self.heap0 is not None:
             ax += smt.heap_wellformed(self.heap0) + smt.alloc_closure(self.heap0)
+        key = (len(smt._str_consts), len(smt._sentinels), len(smt._attr_funcs), len(smt._meth_funcs), len(smt._inst_preds), len(REG.classes),
+               len(self.extra_axioms), None if self.heap0 is None else id(self.heap0), len(self.model.used))
+        self._ax_cache = (key, list(ax))
         return ax
 
     def feasible(self, st: St, extra=None, timeout=400) -> bool:
